@@ -75,7 +75,7 @@ struct Scenario {
 	int cut = -2;             // scripted mode: -2 rng, -1 never drops out, >=0 randomizer index of the drop-out
 	int rep = 0;
 	std::string desc() const {
-		J d; d.kv("kind", "run").kv("scheme", SCHEME[scheme]).kv("n", (long long)n).kv("t", (long long)t).arrn("faulty", faulty).kv("fmode", FMODE[fmode]).kv("rep", rep);
+		J d; d.kv("kind", "run").kv("scheme", SCHEME[scheme]).kv("n", (long long)n).kv("thr", (long long)t).arrn("faulty", faulty).kv("fmode", FMODE[fmode]).kv("rep", rep);
 		return d.str();
 	}
 };
@@ -173,6 +173,12 @@ static void run_scenario(Run &R) {
 	std::vector<bool> skip_r(n, false); for (size_t i = 0; i < n; i++) skip_r[i] = !R.inset[i];
 	std::map<size_t, size_t> idx2dkg, dkg2idx; for (size_t k = 0; k < nr; k++) { idx2dkg[k] = R.subset[k]; dkg2idx[R.subset[k]] = k; }
 	long t_start = g_vtime;
+	// development aid: trace of the broadcast layer (5-tuples ID,j,s,action,payload per link)
+	std::vector<std::string> trace; std::map<std::pair<size_t, size_t>, std::vector<std::string>> part;
+	if (!ctx.option("trace").empty()) bc.on_send = [&](size_t from, size_t to, mpz_srcptr v, long at) {
+		auto &pv = part[{from, to}]; std::string d = mpz_dec(v); pv.push_back(d.size() > 8 ? d.substr(d.size() - 8) : d);
+		if (pv.size() == 5) { trace.push_back("t=" + std::to_string(at - t_start) + " " + std::to_string(from) + "->" + std::to_string(to) + " ID=" + pv[0] + " j=" + pv[1] + " s=" + pv[2] + " act=" + pv[3] + " m=" + pv[4] + " by=" + std::to_string(tl_task ? tl_task->id : -1)); pv.clear(); }
+	};
 	const size_t RR = aiounicast::aio_scheduler_roundrobin;
 	bool keep_logs = !ctx.option("logdir").empty();
 
@@ -253,6 +259,7 @@ static void run_scenario(Run &R) {
 		}, ctx.seed, (uint64_t)R.kcase * 64 + 1);
 	}
 	sched.run();
+	if (!trace.empty()) { std::ofstream f(ctx.option("logdir", ".") + "/trace" + std::to_string(R.kcase) + ".txt"); for (auto &l : trace) f << l << "\n"; }
 	R.st.hung = sched.hung; R.st.vdur = g_vtime - t_start; R.st.uni_sent = uni.sent + uni_r.sent; R.st.bc_sent = bc.sent + bc_r.sent; R.st.switches = sched.switches;
 	for (auto tk : sched.tasks) {
 		R.st.spin_parks += tk->spin_parks;
@@ -277,9 +284,9 @@ static void do_run_case(long k, const Scenario &sc) {
 		violation(std::string("C16/") + S + "/hung", "every party blocked without a deadline", sc.desc());
 		count(pre + "hung_runs");
 	}
-	record(J().kv("k", "run").kv("scheme", S).kv("n", (long long)sc.n).kv("t", (long long)sc.t).arrn("faulty", sc.faulty).kv("fmode", FMODE[sc.fmode])
+	record(J().kv("k", "run").kv("scheme", S).kv("n", (long long)sc.n).kv("thr", (long long)sc.t).arrn("faulty", sc.faulty).kv("fmode", FMODE[sc.fmode])
 	       .kv("keygen_faulty", R.kf).kv("cut", R.cut).arrn("subset", R.subset).kv("hung", R.st.hung).kv("vdur", R.st.vdur).kv("spin_parks", R.st.spin_parks)
-	       .kv("uni_sent", (unsigned long long)R.st.uni_sent).kv("bc_sent", (unsigned long long)R.st.bc_sent).str());
+	       .kv("uni_sent", (unsigned long long)R.st.uni_sent).kv("bc_sent", (unsigned long long)R.st.bc_sent).kv("switches", (unsigned long long)R.st.switches).str());
 	for (size_t ph = 0; ph < R.phases.size(); ph++) {
 		const Phase &P = R.phases[ph];
 		bool sign = (P.kind == PH_SIGN || P.kind == PH_RSIGN);
@@ -288,7 +295,7 @@ static void do_run_case(long k, const Scenario &sc) {
 			const Out &o = R.out[ph][i]; if (!o.called) continue;
 			reached = true;
 			if (!R.isfaulty[i]) { hcalled++; if (o.ret) htrue++; }
-			J j; j.kv("k", sign ? "sig" : "key").kv("scheme", S).kv("n", (long long)sc.n).kv("t", (long long)sc.t).arrn("faulty", sc.faulty).kv("fmode", FMODE[sc.fmode])
+			J j; j.kv("k", sign ? "sig" : "key").kv("scheme", S).kv("n", (long long)sc.n).kv("thr", (long long)sc.t).arrn("faulty", sc.faulty).kv("fmode", FMODE[sc.fmode])
 			    .kv("ph", (long long)ph).kv("phase", P.label).kv("party", (long long)i).kv("honest", !R.isfaulty[i]).kv("ret", o.ret).kv("y", o.y).kv("share", o.share).raw("qual", jarr(o.qual));
 			if (sign) { j.kv("m", R.msgs[ph]).kv("mname", MSG_NAME[P.msg]).kv("a", o.a).kv("s", o.s).kv("lv", o.lv); if (P.kind == PH_RSIGN) j.arrn("subset", R.subset); }
 			if (!o.exc.empty()) j.kv("exc", o.exc);
@@ -304,7 +311,7 @@ static void do_run_case(long k, const Scenario &sc) {
 				count(pre + "n" + std::to_string(sc.n) + "_t" + std::to_string(sc.t) + "_completed");
 				if (anyf) { count(pre + "completed_with_faulty_signer"); count(pre + "completed_fmode_" + FMODE[sc.fmode]); if (sc.faulty.size() > 1) count(pre + "completed_with_two_or_more_faulty"); }
 				evals += (long long)htrue; distinct++;
-				if (sample.empty()) sample = J().kv("scheme", S).kv("n", (long long)sc.n).kv("t", (long long)sc.t).arrn("faulty", sc.faulty).kv("fmode", FMODE[sc.fmode]).kv("phase", P.label).kv("m", shorten(R.msgs[ph], 40)).kv("honest_outputs_true", (long long)htrue).kv("virtual_seconds", R.st.vdur).str();
+				if (sample.empty()) sample = J().kv("scheme", S).kv("n", (long long)sc.n).kv("thr", (long long)sc.t).arrn("faulty", sc.faulty).kv("fmode", FMODE[sc.fmode]).kv("phase", P.label).kv("m", shorten(R.msgs[ph], 40)).kv("honest_outputs_true", (long long)htrue).kv("virtual_seconds", R.st.vdur).str();
 			} else if (htrue > 0) { count(pre + "partially_completed_signing_runs"); evals += (long long)htrue; distinct++; }
 			else { count(anyf ? pre + "sign_failed_under_faults" : pre + "sign_failed_all_honest"); }
 		} else {
@@ -438,7 +445,7 @@ static std::vector<Scenario> build_cases() {
 
 int main(int argc, char **argv) {
 	init(argc, argv);
-	null_cerr();
+	if (ctx.option("cerr").empty()) null_cerr();
 	if (!init_libTMCG()) { fprintf(stderr, "init_libTMCG failed\n"); return 2; }
 	long k = 0;
 	std::string scen = ctx.option("scen");
